@@ -282,6 +282,7 @@ class SimCtx:
                            ("server handshake from connecting client", "hsdir-server"),
                            ("client handshake while connecting as client", "hsdir-client"),
                            ("Unexpected handshake", "hs2"), ("closed by peer before handshake", "eof"),
+                           ("Invalid context name", "hsname"),
                            ("Got handshake from context", "wrongname")):
                 if key in s:
                     return w
@@ -329,6 +330,15 @@ class SimCtx:
 
     def _canon_sent(self, data: bytes, mode: str) -> str:
         if mode == "send":
+            # the message itself is shown as bytes; an error reply the socket manager sends in place of an
+            # unsendable reply is shown decoded
+            try:
+                if len(data) >= 9 and data[0] == 0x50 and int.from_bytes(data[1:9], "little") == len(data) - 9:
+                    m = pickle.loads(data[9:])
+                    if isinstance(m, self.M.QMI_ErrorReplyMessage) and self._body_of_text(m.error_msg) == "sf":
+                        return "E:" + self.msg(m)
+            except Exception:
+                pass
             return "S:" + hx(data)
         try:
             if len(data) >= 9 and data[0] == 0x50 and int.from_bytes(data[1:9], "little") == len(data) - 9:
